@@ -36,6 +36,27 @@ def message_positions_ok(enc) -> bool:
     return len(cols) == k and [r for _, r in cols] == list(range(k))
 
 
+def chain_tree(degrees):
+    """Cycle-free H whose check-node degrees are exactly `degrees`, in that order: check i shares one
+    variable with check i-1 and owns deg-1 fresh ones (so equal degrees can be made non-adjacent)."""
+    n = 1 + sum(d - 1 for d in degrees)
+    H = []
+    nxt = 1
+    last = 0
+    for d in degrees:
+        row = [0] * n
+        row[last] = 1
+        for _ in range(d - 1):
+            row[nxt] = 1
+            last = nxt
+            nxt += 1
+        H.append(row)
+    return H
+
+
+PATTERN_TREES = [[3, 2, 3, 2], [2, 3, 2], [4, 2, 3, 2, 4], [2, 2, 3, 3], [3, 4, 3], [2, 4, 2, 4, 2]]
+
+
 def tree_codes(rng, tier, count):
     out = []
     tries = 0
@@ -89,6 +110,8 @@ def setups(name: str, tier: str, rng) -> list[dict]:
         encs = [(ldpc_encoder(EXAMPLE_H), "ldpc:example3x6"), (E.HammingCodeEncoder(mu=3), "hamming(7,4),left"), (E.HammingCodeEncoder(mu=3, information_set="right"), "hamming(7,4),right")]
         for i, H in enumerate(tree_codes(rng, tier, 3 if q else 12)):
             encs.append((ldpc_encoder(H), f"ldpc:tree#{i}"))
+        for i, degs in enumerate(PATTERN_TREES[: 3 if q else 6]):
+            encs.append((ldpc_encoder(chain_tree(degs)), f"ldpc:chain#{'-'.join(map(str, degs))}"))
         for i, H in enumerate(sparse_codes(rng, tier, 3 if q else 12)):
             encs.append((ldpc_encoder(H), f"ldpc:sparse#{i}"))
         for enc, label in encs:
